@@ -70,7 +70,14 @@ fn main() {
                 for i in 0..count {
                     let mut rng = gen::Rng::new(seed ^ ((si as u64) << 40) ^ (i.wrapping_mul(0x9E3779B97F4A7C15)));
                     let id = format!("r-{}-{}-{}-{}-{}-{}", exec::feat(), fam, cont, nn, seed, i);
-                    let v = gen::gen_vector(&mut rng, id, fam, cont, *nn, &profile);
+                    // n = 999 with a Vec container: a length drawn per vector
+                    // (race and zip are stated for one or more children)
+                    let len = if *nn == 999 && cont == "vec" {
+                        std::cmp::max(gen::pick_len(&mut rng), if fam == "race" || fam == "zip" { 1 } else { 0 })
+                    } else {
+                        *nn
+                    };
+                    let v = gen::gen_vector(&mut rng, id, fam, cont, len, &profile);
                     if let Some(vo) = vout.as_mut() {
                         serde_json::to_writer(&mut *vo, &v).unwrap();
                         vo.write_all(b"\n").unwrap();
